@@ -349,6 +349,83 @@ def jacobi_equivalence(res, seed, nsys):
     res["jacobi_equivalence_worst"] = worst
 
 
+def tree_reference(res, seed, n, soft, theta, box=100.0):
+    """finite opening angle, decided: an independent oct-tree (cells halved about their centre until they hold one particle; total
+    mass and centre of mass per cell) walked with the documented acceptance rule  w^2 > theta^2 d^2 -> open, otherwise the
+    monopole at the centre of mass with the softened kernel, leaves with the same softened kernel.  The library's accelerations
+    must be this sum to rounding."""
+    import random
+    rng = random.Random(seed + 17 * n)
+    pts = [(rng.uniform(0.5, 1.5), rng.uniform(-0.45, 0.45) * box, rng.uniform(-0.45, 0.45) * box, rng.uniform(-0.45, 0.45) * box) for _ in range(n)]
+    s2 = soft * soft
+
+    def build(ids, cx, cy, cz, w):
+        if len(ids) == 1:
+            i = ids[0]
+            return ("leaf", i, pts[i][0], pts[i][1], pts[i][2], pts[i][3], w)
+        m = sum(pts[i][0] for i in ids)
+        mx = sum(pts[i][0] * pts[i][1] for i in ids) / m
+        my = sum(pts[i][0] * pts[i][2] for i in ids) / m
+        mz = sum(pts[i][0] * pts[i][3] for i in ids) / m
+        kids = []
+        for o in range(8):
+            sx, sy, sz = (1 if o & 1 else -1), (1 if o & 2 else -1), (1 if o & 4 else -1)
+            sub = [i for i in ids if ((pts[i][1] >= cx) == (sx > 0)) and ((pts[i][2] >= cy) == (sy > 0)) and ((pts[i][3] >= cz) == (sz > 0))]
+            if sub:
+                kids.append(build(sub, cx + sx * w / 4, cy + sy * w / 4, cz + sz * w / 4, w / 2))
+        return ("cell", kids, m, mx, my, mz, w)
+
+    root = build(list(range(n)), 0.0, 0.0, 0.0, box)
+
+    def walk(node, i, acc):
+        x, y, z = pts[i][1], pts[i][2], pts[i][3]
+        if node[0] == "leaf":
+            if node[1] == i:
+                return
+            dx, dy, dz = x - node[3], y - node[4], z - node[5]
+            rr = math.sqrt(dx * dx + dy * dy + dz * dz + s2)
+            f = -node[2] / (rr * rr * rr)
+            acc[0] += f * dx; acc[1] += f * dy; acc[2] += f * dz   # noqa: E702
+            return
+        _, kids, m, mx, my, mz, w = node
+        dx, dy, dz = x - mx, y - my, z - mz
+        r2 = dx * dx + dy * dy + dz * dz
+        if w * w > theta * theta * r2:
+            for k in kids:
+                walk(k, i, acc)
+        else:
+            rr = math.sqrt(r2 + s2)
+            f = -m / (rr * rr * rr)
+            acc[0] += f * dx; acc[1] += f * dy; acc[2] += f * dz   # noqa: E702
+
+    sim = rebound.Simulation()
+    sim.G = 1.0
+    sim.configure_box(box)
+    sim.gravity = "tree"
+    sim.softening = soft
+    sim.opening_angle2 = theta * theta
+    for mm, x, y, z in pts:
+        sim.add(m=mm, x=x, y=y, z=z)
+    clibrebound.reb_simulation_update_tree(ctypes.byref(sim))
+    clibrebound.reb_simulation_update_tree_gravity_data(ctypes.byref(sim))
+    clibrebound.reb_simulation_update_acceleration(ctypes.byref(sim))
+    res["probes"] += 1
+    worst = 0.0
+    for i in range(n):
+        acc = [0.0, 0.0, 0.0]
+        walk(root, i, acc)
+        p = sim.particles[i]
+        scale = math.sqrt(acc[0] ** 2 + acc[1] ** 2 + acc[2] ** 2) or 1.0
+        e = math.sqrt((p.ax - acc[0]) ** 2 + (p.ay - acc[1]) ** 2 + (p.az - acc[2]) ** 2) / scale
+        worst = max(worst, e)
+        if e > 1e-11 and len(res["violations"]) < 30:
+            res["violations"].append({"routine": "tree", "cfg": {"n": n, "na": -1, "type": 0, "ign": 0}, "source": -1, "target": i, "got": [p.ax, p.ay, p.az], "want": acc,
+                                      "clause": "tree force at opening angle %g, softening %g differs from the reference walk (relative %.2e)" % (theta, soft, e)})
+            break
+    res.setdefault("tree_reference_worst", 0.0)
+    res["tree_reference_worst"] = max(res["tree_reference_worst"], worst)
+
+
 def tree_angle(res, seed, n):
     """finite opening angle (sampled): a cell of width w is used as a monopole at its centre of mass only if w < theta d, every
     particle of it lies within s <= sqrt(3) w of that point, so with x = sqrt(3) theta < 1 the error of each accepted cell is at most
@@ -446,6 +523,9 @@ def main():
         if len(res["samples"]) < 2 and cfg["n"] == 4 and cfg["na"] == 2:
             res["samples"].append({"cfg": cfg, "specified_acts": row["acts"]})
     tree_angle(res, int(sys.argv[4]) if len(sys.argv) > 4 else 0, 120 if stride > 1 else 400)
+    for soft in (0.0, 2.0, 8.0):
+        for theta in (0.3, 0.5, 0.9):
+            tree_reference(res, int(sys.argv[4]) if len(sys.argv) > 4 else 0, 60 if stride > 1 else 200, soft, theta)
     jacobi_equivalence(res, int(sys.argv[4]) if len(sys.argv) > 4 else 0, 10 if stride > 1 else 60)
     json.dump(res, open(out, "w"))
 
